@@ -224,6 +224,7 @@ def run(ctx):
             where = [l.strip() for l in err.splitlines() if "/src/contact_models/" in l or "/include/uspg/" in l]
             V.fail_input(what, {"contact_model": cm, "tissue": t.describe(), "line": lines[c["index"]], "where": where[:3]}, key=None)
         nfail = 0
+        reported = set()
         for i, t in enumerate(ts):
             lines_seen.add(lines[i])
             stats["tissues"] += 1
@@ -243,7 +244,9 @@ def run(ctx):
                     stats["model_identical"] += 1
             for f in fails:
                 nfail += 1
-                if nfail <= 3:
+                kind = f.split(" ")[0] + " " + (f.split(" ")[1] if " " in f else "")
+                if nfail <= 12 and kind not in reported and len(reported) < 2:      # at most two kinds of failure per contact model
+                    reported.add(kind)
                     V.fail_input("contact model %d: %s" % (cm, f), {"contact_model": cm, "tissue": t.describe(), "line": lines[i]}, key=None)
             for f in ties[:1]:
                 V.fail_tie("correspondence", "contact model %d, tissue %d (%s): %s" % (cm, i, t.kind, f), line=lines[i][:400])
